@@ -184,6 +184,12 @@ type State struct {
 	siteCtr int // per-path counter naming fork sites
 	reached []string
 	sharded bool
+	trackShared  bool
+	sharedEpoch  int
+	sharedWrites int
+	sharedWhere  []string
+	mapSite      int // mode 4: index of the range-over-map site that is permuted
+	mapSiteCtr   int
 	entropy []entropyMemo
 	approx  bool // the path went through an over-approximating model
 	dom     *lmap[*Term, *[4]uint64] // feasible-value superset per 8-bit variable
@@ -285,6 +291,18 @@ func (st *State) alloc(v Val) int {
 	id := *st.nextObj
 	st.heap.set(id, v)
 	return id
+}
+
+// hset replaces a heap object; writes to objects that existed before the
+// harness started are counted when shared-state tracking is on (C12).
+func (st *State) hset(id int, v Val) {
+	if st.trackShared && id <= st.sharedEpoch {
+		st.sharedWrites++
+		if len(st.sharedWhere) < 4 && len(st.frames) > 0 {
+			st.sharedWhere = append(st.sharedWhere[:len(st.sharedWhere):len(st.sharedWhere)], st.frames[len(st.frames)-1].fn.String())
+		}
+	}
+	st.heap.set(id, v)
 }
 
 func (st *State) hget(id int) Val {
